@@ -245,6 +245,40 @@ fn check() {
         }
     }
 
+    // ---- hand-over from a handshake to the byte tunnel: the bytes a peer sends right behind its handshake message
+    //      travel in the same segments and end up in the handshake reader's buffer; the relay (real copy_bidi) must
+    //      deliver exactly them, whatever the segmentation. Connector side: upstream reply (HTTP 200 head / SOCKS5 /
+    //      SOCKS4 reply) + an origin banner; listener side: CONNECT head + early client data.
+    {
+        let banner: &[u8] = b"SSH-2.0-banner-of-the-origin\r\n";
+        let cases: Vec<(&str, Vec<u8>)> = vec![
+            ("connector:http", b"HTTP/1.1 200 OK\r\nVia: x\r\n\r\n".to_vec()),
+            ("connector:socks5", vec![5, 0, 0, 1, 1, 2, 3, 4, 0, 80]),
+            ("connector:socks4", vec![0, 90, 0, 80, 1, 2, 3, 4]),
+            ("listener:http", b"CONNECT 1.2.3.4:22 HTTP/1.1\r\nHost: x\r\n\r\n".to_vec()),
+        ];
+        for (kind, head) in cases {
+            let mut data = head.clone();
+            data.extend(banner);
+            let base = tcp_handover(kind, ChunkStream::new(vec![data.clone()]));
+            if base.as_deref() != Ok(banner) {
+                chk.violation("handover", &format!("{kind}:baseline"), format!("{kind}: handshake + banner in one segment: the other side received {:?}", base.map(|b| hex(&b))), json!({"kind": kind, "bytes": hex(&data)}));
+                continue;
+            }
+            let cut_sets = sparse_cut_sets(data.len());
+            handover_cases += cut_sets.len() as u64;
+            par_for(cut_sets.len(), |i| {
+                decodes.fetch_add(1, Ordering::Relaxed);
+                let got = tcp_handover(kind, ChunkStream::from_cuts(&data, &cut_sets[i]));
+                outcomes.add(&(kind, got.is_ok()));
+                if got.as_deref() != Ok(banner) {
+                    let class = if got.is_err() { "tunnel-broken" } else { "bytes-behind-the-handshake-lost-or-changed" };
+                    chk.violation("handover", &format!("{kind}:{class}"), format!("{kind}: cuts {:?} (handshake message is {} bytes): the other side received {:?} instead of the {} bytes that follow it", cut_sets[i], head.len(), got.map(|b| hex(&b)), banner.len()), json!({"kind": kind, "bytes": hex(&data), "cuts": cut_sets[i]}));
+                }
+            });
+        }
+    }
+
     let n = decodes.load(Ordering::Relaxed);
     if chk.violation_count() == 0 && (n < 10_000 || outcomes.len() < 20) {
         machinery(format!("vacuous: decodes={n} outcomes={}", outcomes.len()));
@@ -253,7 +287,7 @@ fn check() {
         "exhaustive": true,
         "states": outcomes.len(), "transitions": n, "traces_validated_against_impl": n,
         "evaluations": n, "distinct_nontrivial": outcomes.len(),
-        "rule": format!("{} valid messages (HTTP request/response heads, SOCKS4/4a/5 negotiations+requests, replies, 1-3 RPFM frames) x trailing payload in {{none, 1 byte, 5 bytes}}; all 2^(n-1) segmentations when n <= {}, otherwise all 1- and 2-cut sets + byte-at-a-time; EOF after every proper prefix (one segment and byte-wise). hand-over: CONNECT head (udp, inline) + 2 frames through the real h11c_handshake/on_connect and 200 reply + 2 frames through the real h11c_connect under all 1- and 2-cut sets + byte-at-a-time, frames read from the tunnel. distinct = distinct (parse result, remainder) outcomes", msgs.len(), exhaustive_limit),
+        "rule": format!("{} valid messages (HTTP request/response heads, SOCKS4/4a/5 negotiations+requests, replies, 1-3 RPFM frames) x trailing payload in {{none, 1 byte, 5 bytes}}; all 2^(n-1) segmentations when n <= {}, otherwise all 1- and 2-cut sets + byte-at-a-time; EOF after every proper prefix (one segment and byte-wise). hand-over: CONNECT head (udp, inline) + 2 frames through the real h11c_handshake/on_connect and 200 reply + 2 frames through the real h11c_connect under all 1- and 2-cut sets + byte-at-a-time, frames read from the tunnel; hand-over to the byte tunnel: upstream reply (HTTP / SOCKS5 / SOCKS4) + origin banner and CONNECT head + early data through the real readers and the real copy_bidi under the same cut sets. distinct = distinct (parse result, remainder) outcomes", msgs.len(), exhaustive_limit),
         "messages": msgs.len(), "segmentation_cases": seg_cases, "handover_segmentations": handover_cases, "truncation_points": trunc_cases,
         "samples": samples,
     });
@@ -308,6 +342,56 @@ fn handover(side: &str, stream: ChunkStream) -> Result<Vec<String>, String> {
         run_ready(fut, 200_000)
     })
     .and_then(|o| o.ok_or_else(|| "did not terminate".to_string()))
+    .unwrap_or_else(Err)
+}
+
+/// Runs the real handshake reader of one side over `stream`, hands the connection to the real copy_bidi and returns
+/// what the opposite endpoint received.
+fn tcp_handover(kind: &str, stream: ChunkStream) -> Result<Vec<u8>, String> {
+    use crate::common::h11c::{h11c_connect, h11c_handshake};
+    use crate::common::socks::SocksResponse;
+    use crate::context::{make_buffered_stream, ContextRefOps, Feature, GlobalState as Contexts, TargetAddress};
+    let kind = kind.to_string();
+    catch(|| {
+        let fut = async move {
+            let contexts: std::sync::Arc<Contexts> = Default::default();
+            let ctx = contexts.create_context("l".to_string(), "127.0.0.1:1".parse().unwrap()).await;
+            let other = ChunkStream::new(vec![]);
+            let sink = other.written.clone();
+            let a: std::net::SocketAddr = "127.0.0.1:2".parse().unwrap();
+            ctx.write().await.set_connector("c".to_string());
+            match kind.as_str() {
+                "connector:http" => {
+                    ctx.write().await.set_target(TargetAddress::DomainPort("t".into(), 22)).set_feature(Feature::TcpForward).set_client_stream(make_buffered_stream(other));
+                    h11c_connect(make_buffered_stream(stream), ctx.clone(), a, a, "inline", |id| async move { frames_from_stream(id, ChunkStream::new(vec![])) }).await.map_err(|e| format!("connect: {e}"))?;
+                }
+                "connector:socks5" | "connector:socks4" => {
+                    let mut server = make_buffered_stream(stream);
+                    let r = SocksResponse::read_from(&mut server).await.map_err(|e| format!("reply: {e}"))?;
+                    if r.cmd != 0 {
+                        return Err(format!("reply code {}", r.cmd));
+                    }
+                    ctx.write().await.set_client_stream(make_buffered_stream(other)).set_server_stream(server);
+                }
+                _ => {
+                    ctx.write().await.set_client_stream(make_buffered_stream(stream));
+                    let (tx, mut rx) = tokio::sync::mpsc::channel(4);
+                    h11c_handshake(ctx.clone(), tx, |_, _| async { easy_error::bail!("not supported") }).await.map_err(|e| format!("handshake: {e}"))?;
+                    rx.try_recv().map_err(|_| "handshake did not queue the request".to_string())?;
+                    ctx.write().await.set_server_stream(make_buffered_stream(other));
+                    ctx.on_connect().await;
+                    // what the listener wrote to its client (the 200 head) is not tunnel payload: the sink is the server side here
+                }
+            }
+            let params = crate::config::IoParams { buffer_size: 4096, use_splice: false };
+            crate::copy::copy_bidi(ctx.clone(), &params).await.map_err(|e| format!("relay: {e}"))?;
+            let got = sink.lock().unwrap().clone();
+            Ok(got)
+        };
+        // the relay uses a timer: a real (single-threaded) runtime; nothing ever waits, so it ends at once
+        let rt = tokio::runtime::Builder::new_current_thread().enable_all().build().unwrap();
+        rt.block_on(async { tokio::time::timeout(std::time::Duration::from_secs(10), fut).await.unwrap_or_else(|_| Err("did not terminate".to_string())) })
+    })
     .unwrap_or_else(Err)
 }
 
